@@ -548,6 +548,36 @@ func genGw(seed uint64, n int, out string) {
 							m.Port = uint32(wire.Pick(r, []int{80, 8080, 443}))
 						}
 						m.SourceNamespace = ""
+						// JWT-claim keys (gateway-bound VirtualServices only): dynamic-metadata matchers
+						if r.Chance(1, 4) {
+							key := wire.Pick(r, []string{"@request.auth.claims.groups", "@request.auth.claims[sub]", "@request.auth.claims.nested.role",
+								"@Request.Auth.Claims[groups]"})
+							sm := wire.Pick(r, []*networking.StringMatch{mkSM(0, "admin"), mkSM(0, "jason"), mkSM(1, "ad"), mkSM(2, "(admin|dev)"), mkSM(2, "j.*")})
+							if r.Chance(1, 3) {
+								if m.WithoutHeaders == nil {
+									m.WithoutHeaders = map[string]*networking.StringMatch{}
+								}
+								m.WithoutHeaders[key] = sm
+							} else {
+								if m.Headers == nil {
+									m.Headers = map[string]*networking.StringMatch{}
+								}
+								m.Headers[key] = sm
+							}
+							if r.Chance(1, 3) { // the claim as the only condition: must not be taken for a catch-all
+								m.Uri, m.Method, m.Authority, m.Scheme, m.QueryParams = nil, nil, nil, nil, nil
+								for k := range m.Headers {
+									if _, ok := claimKey(k); !ok {
+										delete(m.Headers, k)
+									}
+								}
+								for k := range m.WithoutHeaders {
+									if _, ok := claimKey(k); !ok {
+										delete(m.WithoutHeaders, k)
+									}
+								}
+							}
+						}
 					}
 					s.vs.Http = append(s.vs.Http, h)
 				}
@@ -577,8 +607,16 @@ func genGw(seed uint64, n int, out string) {
 				if strings.HasPrefix(rn, "https") || r.Chance(1, 6) {
 					q.scheme = wire.Pick(r, []string{"https", "https", "http"})
 				}
+				switch r.Intn(5) {
+				case 0:
+					q.claims = []kv{{"groups", "admin"}, {"groups", "dev"}, {"sub", "jason"}}
+				case 1:
+					q.claims = []kv{{"sub", "jason"}, {"nested.role", "admin"}}
+				case 2:
+					q.claims = []kv{{"groups", "ops"}, {"sub", "mallory"}}
+				}
 				o.Line("greq", wire.Enc(q.path), encPairs(q.query), wire.Enc(q.method), wire.Enc(q.authority), wire.Enc(q.scheme), encPairs(q.headers),
-					encPairs(regexTable(merged, q)))
+					encPairs(regexTable(merged, q)), encPairs(q.claims))
 			}
 		}
 	}
